@@ -503,7 +503,7 @@ func bubble(scn Scn, tr *Trace) (closeReturned bool) {
 			}
 		}
 		tr.Steps = append(tr.Steps, o)
-		monitorStep(scn, tr, src, fulls, pending && pendLive, closeCalled, closeRet, a)
+		monitorStep(scn, tr, src, fulls, pending && pendLive, pending && !pendLive, closeCalled, closeRet, a)
 		_ = closeRetAt
 		src.mu.Unlock()
 		mu.Unlock()
@@ -514,7 +514,7 @@ func bubble(scn Scn, tr *Trace) (closeReturned bool) {
 // ---------------------------------------------------------------------------------------------
 // monitors: the clauses of the property text, evaluated after every step on what is observable
 
-func monitorStep(scn Scn, tr *Trace, src *source, fulls []*fullCall, waitingLive, closeCalled, closeRet bool, a Act) {
+func monitorStep(scn Scn, tr *Trace, src *source, fulls []*fullCall, waitingLive, cancelledPending, closeCalled, closeRet bool, a Act) {
 	now := tr.Steps[len(tr.Steps)-1].T
 	stepIdx := len(tr.Steps) - 1
 	fpend := tr.Steps[stepIdx].FPend
@@ -649,6 +649,11 @@ func monitorStep(scn Scn, tr *Trace, src *source, fulls []*fullCall, waitingLive
 	if waitingLive {
 		tr.Features["waiter-at-quiescence"] = true
 	}
+	// a Next whose context has expired must not stay blocked
+	if cancelledPending {
+		tr.add("c11-next-stuck-after-cancel", fmt.Sprintf("the pending Next's context was cancelled and the call is still blocked with every goroutine idle (t=%d)", now))
+		tr.add("c08-next-stuck-after-cancel", "a Next whose context expired does not return")
+	}
 	// Close
 	if closeCalled && !closeRet && !fpend {
 		tr.add("c11-close-deadlock", fmt.Sprintf("Close was called and has not returned although every goroutine is idle (t=%d, source Next pending=%v, items handed out=%d, delivered=%d)", now, src.nextActive > 0, len(handed), len(concat)))
@@ -659,6 +664,9 @@ func monitorStep(scn Scn, tr *Trace, src *source, fulls []*fullCall, waitingLive
 	if closeRet {
 		if src.closeCalls != 1 {
 			tr.add("c09-source-close-count", fmt.Sprintf("Close returned and the source was closed %d times", src.closeCalls))
+		}
+		if src.closeCalls == 0 {
+			tr.add("c11-close-source-not-closed", "Close returned without having closed the source")
 		}
 		if src.nextActive > 0 {
 			tr.add("c09-next-pending-after-close", "Close returned while a Next call on the source is still running")
@@ -1023,7 +1031,7 @@ func TestVerif(t *testing.T) {
 	}
 	r := vlib.NewRand(env.Seed)
 	deadline := env.Deadline()
-	max := 1500
+	max := 6000
 	if env.Thorough() || env.Deep {
 		max = 40000
 	}
@@ -1034,5 +1042,62 @@ func TestVerif(t *testing.T) {
 			break
 		}
 	}
+	if env.Thorough() {
+		res.Exhaustive = exhaustive(t, m, res, time.Now().Add(time.Duration(env.BudgetMs)*time.Millisecond))
+	}
 	res.Write(env.Out)
+}
+
+// exhaustive runs every script up to a length bound over a small alphabet, for one Batch and one
+// gated BatchFunc configuration (bounded checking of the model-code correspondence and of the
+// monitors; it never stands in for a theorem). Reports whether the enumeration completed.
+func exhaustive(t *testing.T, m *vlib.Model, res *vlib.Result, deadline time.Time) bool {
+	type space struct {
+		scn   Scn
+		alpha []Act
+		depth int
+	}
+	spaces := []space{
+		{Scn{Mode: "batch", MaxWait: 2, Size: 2},
+			[]Act{{Op: "rel"}, {Op: "next", V: 1}, {Op: "next", V: 0}, {Op: "cancel"}, {Op: "sleep", V: 1}, {Op: "sleep", V: 3}, {Op: "eof"}, {Op: "err"}, {Op: "close"}}, 5},
+		{Scn{Mode: "func", MaxWait: 2, Gated: true},
+			[]Act{{Op: "rel"}, {Op: "rel", V: 1000}, {Op: "next", V: 1}, {Op: "cancel"}, {Op: "sleep", V: 1}, {Op: "sleep", V: 3}, {Op: "fullret"}, {Op: "eof"}, {Op: "close"}}, 5},
+	}
+	complete := true
+	n := 0
+	for _, sp := range spaces {
+		var rec func(prefix []Act, items int)
+		rec = func(prefix []Act, items int) {
+			if !complete {
+				return
+			}
+			if len(prefix) > 0 {
+				if time.Now().After(deadline) {
+					complete = false
+					return
+				}
+				scn := sp.scn
+				scn.Script = append([]Act{}, prefix...)
+				record(t, scn, m, 3, res)
+				n++
+			}
+			if len(prefix) == sp.depth || (len(prefix) > 0 && prefix[len(prefix)-1].Op == "close") {
+				return
+			}
+			for _, a := range sp.alpha {
+				it := items
+				if a.Op == "rel" {
+					it++
+					a.V += it
+				}
+				if len(prefix) == 0 && (a.Op == "cancel" || a.Op == "fullret") {
+					continue
+				}
+				rec(append(append([]Act{}, prefix...), a), it)
+			}
+		}
+		rec(nil, 0)
+	}
+	res.Dist["exhaustive-scripts"] = n
+	return complete
 }
